@@ -69,6 +69,54 @@ Theorem C02_never_another_value : forall o l wb lay n inside v' toks n' tr rest 
   v = v' /\ rest2 = rest.
 Proof. exact C02_agree. Qed.
 
+(* ---- dict literals: the value is the Python dict that dict(items) builds (config_parser._maybe_parse_container) ----
+   No hypothesis about the keys is made anywhere above: [py_eval] of a dict literal IS the successive assignment
+   y[k] = v over the evaluated items with Python's key equality [out_py_eqb] (numbers by value across bool / int / float /
+   complex, tuples pointwise, everything else -- None, str, bytes, what the delegate returned for a reference or a macro --
+   when the observations are the same), and no value at all (TypeError) when a key cannot be hashed. *)
+Theorem C02_dict_is_python_dict : forall o items trailing,
+  py_eval o (LDict items trailing) =
+  match eval_ditems o items with
+  | Some kvs => if keys_hashable kvs then Some (build_dict kvs) else None
+  | None => None
+  end.
+Proof. exact py_eval_LDict. Qed.
+(* 1, True and 1.0 are one key, which keeps the first spelling and place and takes the last value; so are (1, 'a') and
+   (True, 'a'); 0, -0.0, False and 0j; '' is another key.  The model before it followed Python's equality ([dict_set_orig]:
+   keys compared as observations) kept them apart. *)
+Example C02_dict_equal_keys_one_entry :
+  let i1 := OT "int" [OS "1"] in let t := OT "bool" [OS "True"] in let f1 := OT "float" [OS "0x1.0000000000000p+0"] in
+  let s := fun x => OT "str" [OS x] in
+  build_dict [(t, s "a"); (OT "int" [OS "2"], s "b"); (i1, s "c"); (f1, s "d")]
+    = OT "D" [OL [t; s "d"]; OL [OT "int" [OS "2"]; s "b"]] /\
+  build_dict [(OT "T" [i1; s "a"], i1); (OT "T" [t; s "a"], t)] = OT "D" [OL [OT "T" [i1; s "a"]; t]] /\
+  build_dict [(OT "int" [OS "0"], i1); (OT "float" [OS "-0x0.0p+0"], t); (OT "bool" [OS "False"], f1);
+              (OT "complex" [OS "0x0.0p+0"; OS "0x0.0p+0"], s "z"); (s "", i1)]
+    = OT "D" [OL [OT "int" [OS "0"]; s "z"]; OL [s ""; i1]] /\
+  fold_left (fun acc kv => dict_set_orig (fst kv) (snd kv) acc) [(t, s "a"); (i1, s "c")] [] = [(t, s "a"); (i1, s "c")].
+Proof. vm_compute. repeat split; reflexivity. Qed.
+(* the token stream of "{[1]: 2}" (then NEWLINE, ENDMARKER): the key cannot be hashed: TypeError, raised once the closing
+   bracket has been passed; Python's literal has no value either *)
+Definition C02_unhashable_stream : list token :=
+  [ {| ty := OP; text := "{"; srow := 1; scol := 0; erow := 1; ecol := 1 |};
+    {| ty := OP; text := "["; srow := 1; scol := 1; erow := 1; ecol := 2 |};
+    {| ty := NUMBER; text := "1"; srow := 1; scol := 2; erow := 1; ecol := 3 |};
+    {| ty := OP; text := "]"; srow := 1; scol := 3; erow := 1; ecol := 4 |};
+    {| ty := OP; text := ":"; srow := 1; scol := 4; erow := 1; ecol := 5 |};
+    {| ty := NUMBER; text := "2"; srow := 1; scol := 6; erow := 1; ecol := 7 |};
+    {| ty := OP; text := "}"; srow := 1; scol := 7; erow := 1; ecol := 8 |};
+    {| ty := NEWLINE; text := ""; srow := 1; scol := 8; erow := 1; ecol := 9 |};
+    {| ty := ENDMARKER; text := ""; srow := 2; scol := 0; erow := 2; ecol := 0 |} ].
+Definition C02_unhashable_oracle : oracle :=
+  [("1", Some (OT "int" [OS "1"])); ("-1", Some (OT "int" [OS "-1"]));
+   ("2", Some (OT "int" [OS "2"])); ("-2", Some (OT "int" [OS "-2"]))].
+Example C02_unhashable_key_is_TypeError :
+  parse_value (value_fuel C02_unhashable_stream) C02_unhashable_oracle false C02_unhashable_stream = PErr (EOther "TypeError") /\
+  py_eval C02_unhashable_oracle
+    (LDict [(LList [LBasic false (nth 2 C02_unhashable_stream eof_token)] false,
+             LBasic false (nth 5 C02_unhashable_stream eof_token))] false) = None.
+Proof. vm_compute. split; reflexivity. Qed.
+
 
 (* The leading minus (repaired defect): a '-' that is not followed by a NAME / NUMBER / STRING token is never
    accepted -- for any fuel the parse is an error (with at least one unit of fuel: the SyntaxError at the token
@@ -269,6 +317,9 @@ Print Assumptions C02_one_tuple.
 Print Assumptions C02_sound.
 Print Assumptions C02_sound_exact.
 Print Assumptions C02_never_another_value.
+Print Assumptions C02_dict_is_python_dict.
+Print Assumptions C02_dict_equal_keys_one_entry.
+Print Assumptions C02_unhashable_key_is_TypeError.
 Print Assumptions C02_minus_needs_number.
 Print Assumptions C02_minus_needs_number_exact.
 Print Assumptions C02_minus_value_is_basic.
